@@ -158,6 +158,21 @@ func (ans *answer) setBootstrap(c *capnp.Client) error {
 //
 // The caller must NOT be holding onto ans.c.mu or the sender lock.
 func (ans *answer) Return(e error) {
+	// Publish the results first: from here on pipelined calls are resolved
+	// against resultCapTable (handleCall), no longer through ans.pcall,
+	// which reads the capability table of the results message.  Calls
+	// already on their way through ans.pcall must be done before that
+	// table is taken out of the message below.
+	ans.c.mu.Lock()
+	if ans.results.IsValid() {
+		ans.resultCapTable = ans.results.Message().CapTable
+	}
+	ans.err = e
+	ans.pcall = nil
+	ans.flags |= resultsReady
+	ans.c.mu.Unlock()
+	ans.pcalls.Wait()
+
 	var cstates []capnp.ClientState
 	if ans.results.IsValid() {
 		ans.resultCapTable, cstates = extractCapTable(ans.results.Message())
